@@ -25,9 +25,15 @@ def mem_init(width: WIDTH):
 
 
 @obligation(["C19"], "SeqCountProvider.get_and_increment", verifies=[M + "SeqCountProvider.get_and_increment", M + "ProvidesSeqCount.__next__"])
-def mem_step(width: WIDTH, c: Int, via_next: Bool):
+def mem_step(width: WIDTH, c: Int, via_next: Bool, width0: WIDTH, width_set_later: Bool):
+    """one call from an arbitrary in-range state; the width may have been (re)configured through the documented
+    max_bit_width setter after construction - the modulus is that of the CURRENT width"""
     requires(in_range(c, width))
-    p = SeqCountProvider(width)
+    if width_set_later:
+        p = SeqCountProvider(width0)
+        p.max_bit_width = width
+    else:
+        p = SeqCountProvider(width)
     p.count = c
     if via_next:
         r = next(p)
@@ -71,10 +77,14 @@ def file_current(width: WIDTH, c: Int, rest: Text):
 @obligation(["C19"], "FileSeqCountProvider.get_and_increment",
             verifies=[M + "FileSeqCountProvider.get_and_increment", M + "FileSeqCountProvider.check_count",
                       M + "FileSeqCountProvider._increment_with_rollover", M + "ProvidesSeqCount.__next__", M + "FileSeqCountProvider.current"])
-def file_step(width: WIDTH, c: Int, rest: Text, via_next: Bool):
+def file_step(width: WIDTH, c: Int, rest: Text, via_next: Bool, width0: WIDTH, width_set_later: Bool):
     requires(in_range(c, width))
     path = ghost_file(f"{c}\n" + rest)
-    p = FileSeqCountProvider(width, path)
+    if width_set_later:
+        p = FileSeqCountProvider(width0, path)
+        p.max_bit_width = width
+    else:
+        p = FileSeqCountProvider(width, path)
     if via_next:
         o = outcome(next, p)
     else:
